@@ -19,7 +19,7 @@ SHARDS = {"quick": 8, "thorough": 16}
 TIME_BUDGET = {"quick": 90, "thorough": 900}
 FLOORS = {"quick": {"short_writes": 5000, "tcp_pushes": 2, "tcp_short_sends": 1, "distinct": 100}, "thorough": {"short_writes": 100000, "tcp_pushes": 12}}
 
-CAPS = ["1", "23", "24", "25", "4095", "const", "random", "random0", "once", "stuck"]
+CAPS = ["1", "23", "24", "25", "4095", "const", "random", "random0", "once", "stuck", "none"]
 
 
 def gen_cases(tier, seed):
@@ -30,6 +30,11 @@ def gen_cases(tier, seed):
     for j, (size, md) in enumerate(sizes):
         for impl in ("sync", "async"):
             yield {"kind": "tcp", "impl": impl, "size": size, "maxdata": md, "sndbuf": [4096, 16384][j % 2], "rcvbuf": [4096, 8192][j % 2], "seed": "%d:t%d" % (seed, j)}
+    # the reader stalls in the middle of a message for longer than the transport timeout: the call may raise, but whatever
+    # the peer has received must be an undamaged prefix -- and if the call returns, everything must be there
+    for j in range(2 if tier == "quick" else 8):
+        yield {"kind": "tcp", "impl": "sync", "size": 1500000, "maxdata": 1024 * 1024, "sndbuf": 8192, "rcvbuf": 4096, "seed": "%d:st%d" % (seed, j),
+               "stall_after": [200000, 1200000][j % 2], "stall_s": 1.0, "transport_timeout_s": 0.3, "read_timeout_s": 6.0}
 
 
 def capfn(name, rng):
@@ -41,6 +46,8 @@ def capfn(name, rng):
         return lambda call, n, r: r.choice([1, 24, r.randint(1, max(1, n)), n, n, max(1, n - 1)])
     if name == "random0":
         return lambda call, n, r: r.choice([0, 1, r.randint(0, n), n, n])
+    if name == "none":
+        return "none"
     if name == "stuck":
         k = rng.randint(3, 60)
         return lambda call, n, r: (n if call < k else (r.randint(0, 3) if call == k else 0))     # the peer stops draining for good
@@ -61,6 +68,11 @@ def run_mem(case, stats):
             st["dest"] = "bytesio"
         if st["op"] == "push":
             st["src"] = "bytesio"
+    if case["cap"] == "none":
+        # large messages matter here: a device with a big maxdata and a push well above 64 KiB
+        sc["dims"]["maxdata"] = rng.choice([256 * 1024, 1024 * 1024])
+        sc["dims"]["frag"] = "whole"
+        sc["steps"].append({"op": "push", "path": "/big", "size": rng.choice([200000, 700000]), "seed": case["seed"], "src": "bytesio", "mode": 0o100644, "mtime": 9, "cb": None})
     viol = []
     # reference: full writes
     ref = gen.make_session(case["impl"], sc["dims"], case["seed"])
@@ -130,7 +142,9 @@ def run_tcp(case, stats):
     size, md = case["size"], case["maxdata"]
     content = scen.blob(case["seed"], size)
     sim = simdev.SimDevice(rng=gen.rng_for("C15tcp", case["seed"]), maxdata=md, remote_ids="random")
-    peer = tcp_peer.TcpPeer(sim, rcvbuf=case["rcvbuf"], read_chunk=8192, read_delay=0.0005)
+    peer = tcp_peer.TcpPeer(sim, rcvbuf=case["rcvbuf"], read_chunk=8192, read_delay=0.0005, stall_after=case.get("stall_after"), stall_s=case.get("stall_s", 0.0))
+    tto = case.get("transport_timeout_s", 20.0)
+    rto = case.get("read_timeout_s", 40.0)
     short = [0, 0]
     try:
         if case["impl"] == "sync":
@@ -145,12 +159,12 @@ def run_tcp(case, stats):
                     short[0] += 1
                 return n
             tr.bulk_write = probe
-            dev = repo.adb_device.AdbDevice(tr, default_transport_timeout_s=20.0)
+            dev = repo.adb_device.AdbDevice(tr, default_transport_timeout_s=tto)
             with tcp_peer.SndbufPatch(case["sndbuf"]) as sp:
                 t0 = time.time()
                 try:
-                    ok = dev.connect(transport_timeout_s=20.0, read_timeout_s=40.0)
-                    dev.push(io.BytesIO(content), "/tcp/file", mtime=77, transport_timeout_s=20.0, read_timeout_s=40.0)
+                    ok = dev.connect(transport_timeout_s=tto, read_timeout_s=rto)
+                    dev.push(io.BytesIO(content), "/tcp/file", mtime=77, transport_timeout_s=tto, read_timeout_s=rto)
                     result = ("ret", None)
                 except Exception as e:  # noqa
                     result = ("exc", e)
@@ -186,6 +200,7 @@ def run_tcp(case, stats):
     finally:
         peer.stop()
     stats["tcp_pushes"] += 1
+    stats["stalled_pushes"] += 1 if case.get("stall_after") is not None else 0
     stats["tcp_short_sends"] += short[0]
     stats["tcp_bytes"] += peer.received
     where = "%s push of %d bytes over loopback, maxdata %d, SO_SNDBUF %d, SO_RCVBUF %d, %d/%d short sends" % (case["impl"], size, md, case["sndbuf"], case["rcvbuf"], short[0], short[1])
@@ -195,6 +210,9 @@ def run_tcp(case, stats):
         raise RuntimeError("harness: tcp peer failed: %r" % (peer.error,))
     if sim.framing_error is not None:
         viol.append({"mechanism": "short-write-truncates-message", "detail": "%s: the peer's parser failed: %s" % (where, sim.framing_error)})
+    elif result[0] == "exc" and case.get("stall_after") is not None:
+        # the peer stalled on purpose: raising is allowed ("or the call raises"); what arrived is an undamaged prefix (no framing error, checked above)
+        stats["stalled_pushes_raised"] += 1
     elif result[0] == "exc":
         e = result[1]
         if type(e).__name__ in ("TcpTimeoutException", "AdbTimeoutError") and sim.parser.pending() == 0 and short[0] == 0:
@@ -210,7 +228,7 @@ def run_tcp(case, stats):
 
 
 def run_case(case):
-    stats = {"short_writes": 0, "write_calls": 0, "messages_compared": 0, "tcp_pushes": 0, "tcp_short_sends": 0, "tcp_bytes": 0, "sndbuf_applied": 0, "tcp_inconclusive": 0, "stuck_runs": 0}
+    stats = {"short_writes": 0, "write_calls": 0, "messages_compared": 0, "tcp_pushes": 0, "tcp_short_sends": 0, "tcp_bytes": 0, "sndbuf_applied": 0, "tcp_inconclusive": 0, "stuck_runs": 0, "stalled_pushes_raised": 0, "stalled_pushes": 0}
     if case["kind"] == "mem":
         sig, viol, sample = run_mem(case, stats)
     else:
